@@ -23,6 +23,9 @@ VERIF = os.path.dirname(os.path.dirname(os.path.abspath(__file__)))
 REPO = os.environ.get("HT_REPO", "/repo")
 LEAN = os.path.join(VERIF, "lean")
 HARNESS = os.path.join(VERIF, "harness")
+# the harness binary of this run: one per property, so that checks of different properties can run side by side (the
+# child processes of C01, C02 and C18 re-execute it)
+HARNESS_BIN = os.path.join(os.path.join(VERIF, "build"), "harness")
 EXTRACT = os.path.join(VERIF, "extract")
 BUILD = os.path.join(VERIF, "build")
 REPLAYS = os.path.join(VERIF, "replays")
@@ -98,7 +101,7 @@ def build_harness():
     Returns (ok, message)."""
     with Lock("go"):
         prepare_go_module(HARNESS)
-        outp = os.path.join(BUILD, "harness")
+        outp = HARNESS_BIN
         if os.path.exists(outp):
             os.remove(outp)          # never run a stale binary
         rc, so, se, dt = run(["go", "build", "-tags", "verif", "-o", outp, "."], cwd=HARNESS,
@@ -284,7 +287,7 @@ def run_stream(name, tier, seed, replay_file=None, model=True, timeout=3000, ext
     """Run one harness stream and the Lean driver on the same case lines."""
     res = StreamResult(name)
     t0 = time.time()
-    cmd = [os.path.join(BUILD, "harness"), name]
+    cmd = [HARNESS_BIN, name]
     if replay_file:
         cmd += ["--replay", replay_file]
     else:
